@@ -51,9 +51,10 @@ type Scenario struct {
 	NewS       string   `json:"news,omitempty"`    // bsdiff: new string
 	OldSpec    string   `json:"oldspec,omitempty"` // bsdiff: old content spec (large inputs)
 	NewSpec    string   `json:"newspec,omitempty"`
-	FailAt     int      `json:"failat,omitempty"` // diff: the source reader fails at its FailAt-th Read call (1-based)
-	BigSig     int      `json:"bigsig,omitempty"` // diff: synthetic old signature of this many blocks (contents A,B,C repeating)
-	Cap        int      `json:"cap,omitempty"`    // scheduler variant: capacity replacing the scanner's 256-slot channels
+	FailAt     int      `json:"failat,omitempty"`   // diff: the source reader fails at its FailAt-th Read call (1-based)
+	ReadCaps   []int    `json:"readcaps,omitempty"` // diff, free-running passes: the scenario is also run with every source read capped at each of these sizes; all outputs must agree
+	BigSig     int      `json:"bigsig,omitempty"`   // diff: synthetic old signature of this many blocks (contents A,B,C repeating)
+	Cap        int      `json:"cap,omitempty"`      // scheduler variant: capacity replacing the scanner's 256-slot channels
 	Partitions int      `json:"partitions,omitempty"`
 	Conc       int      `json:"conc,omitempty"`
 	Bound      int      `json:"bound"`
@@ -65,6 +66,7 @@ type chooser func(n int, label string) int
 
 type slicingPool struct {
 	lake.Pool
+	capN   int
 	choose chooser
 	failAt int
 	reads  int
@@ -72,6 +74,7 @@ type slicingPool struct {
 
 type slicingReader struct {
 	r      io.Reader
+	capN   int
 	br     *bufio.Reader
 	choose chooser
 	failAt int
@@ -97,6 +100,9 @@ func (s *slicingReader) Read(p []byte) (int, error) {
 			}
 		}
 	}
+	if s.capN > 0 && len(p) > s.capN {
+		p = p[:s.capN]
+	}
 	if s.choose == nil {
 		return s.r.Read(p)
 	}
@@ -118,11 +124,12 @@ func (s *slicingPool) GetReader(i int64) (io.Reader, error) {
 	if err != nil {
 		return nil, err
 	}
-	return &slicingReader{r: r, choose: s.choose, failAt: s.failAt, reads: &s.reads}, nil
+	return &slicingReader{r: r, capN: s.capN, choose: s.choose, failAt: s.failAt, reads: &s.reads}, nil
 }
 
 // prepared is a materialised scenario.
 type prepared struct {
+	readCap        int // free-running passes: cap on every source read of this run
 	seed           int64
 	sc             Scenario
 	oldDir, newDir string
@@ -187,8 +194,8 @@ func (p *prepared) run(choose chooser) (string, error) {
 	switch sc.Kind {
 	case "diff":
 		var pool lake.Pool = fspool.New(p.dr.New, p.newDir)
-		if sc.Slicing || sc.FailAt > 0 {
-			sp := &slicingPool{Pool: pool, failAt: sc.FailAt}
+		if sc.Slicing || sc.FailAt > 0 || p.readCap > 0 {
+			sp := &slicingPool{Pool: pool, failAt: sc.FailAt, capN: p.readCap}
 			if sc.Slicing {
 				sp.choose = choose
 			}
@@ -278,7 +285,13 @@ func digest(parts ...[]byte) string {
 // largeScenarios are only run free (plain and race builds): outputs must not depend on
 // the number of CPUs. The scanner only splits inputs above 128KiB per block.
 func largeScenarios() []Scenario {
+	multiOld := wh.Build{wh.F("a", "A.B.C.D.E.=x"), wh.F("b", "F.G/100")}
+	multiNew := wh.Build{wh.F("a", "A.B.r3/70000.D.E.H.=tail"), wh.F("b", "F.G/100"), wh.F("c", "r4/200000")}
 	return []Scenario{
+		// several blocks per file, every source read cut short (the differ's consumers read
+		// whole 64KiB blocks, the reader goroutine copies in 16KiB pieces: the caps make
+		// pieces and blocks misalign in every phase)
+		{Kind: "diff", Old: multiOld, New: multiNew, Comp: "none", ReadCaps: []int{16383, 10000, 4093, 5000, 17}},
 		{Kind: "bsdiff", OldSpec: "r1/1600000", NewSpec: "r1/700000.=EDIT.r1/900000.r2/5000", Partitions: 2},
 		{Kind: "bsdiff", OldSpec: "r1/1200000", NewSpec: "r1/1200000.=tail", Partitions: 0},
 	}
@@ -400,9 +413,21 @@ func body(w *runner.W) {
 			}
 			seen[d]++
 		}
+		// the same diff with every source read cut short at a fixed size
+		for ci, c := range sc.ReadCaps {
+			runtime.GOMAXPROCS([]int{1, 2, 4, 8, 16}[ci%5])
+			p.readCap = c
+			d, err := p.run(nil)
+			p.readCap = 0
+			if err != nil {
+				r.Failf("error:"+sc.Kind, "read cap %d: %v", c, err)
+				return
+			}
+			seen[d]++
+		}
 		runtime.GOMAXPROCS(runtime.NumCPU())
 		if len(seen) > 1 {
-			r.Failf("nondeterministic:"+sc.Kind+":free-running", "%d different outputs under GOMAXPROCS 1,2,4,8,16: %v", len(seen), seen)
+			r.Failf("nondeterministic:"+sc.Kind+":free-running", "%d different outputs under GOMAXPROCS 1,2,4,8,16 and source reads capped at %v: %v", len(seen), sc.ReadCaps, seen)
 		}
 		r.Nontrivial()
 		r.Outcome(sc.Kind)
@@ -447,6 +472,20 @@ func body(w *runner.W) {
 				break
 			}
 		}
+		for ci, c := range sc.ReadCaps {
+			runtime.GOMAXPROCS([]int{1, 2, 4, 16}[ci%4])
+			p.readCap = c
+			d, err := p.run(nil)
+			p.readCap = 0
+			if err != nil {
+				r.Failf("error:"+sc.Kind, "read cap %d: %v", c, err)
+				break
+			}
+			if d != ref {
+				r.Failf("nondeterministic:"+sc.Kind+":race-pass", "output differs when source reads are capped at %d bytes", c)
+				break
+			}
+		}
 		runtime.GOMAXPROCS(runtime.NumCPU())
 		if rep := raceReports(); rep != "" {
 			r.Failf("data-race:"+raceSite(rep), "race detector report:\n%s", rep)
@@ -465,10 +504,11 @@ func body(w *runner.W) {
 				sc.Slicing = false
 				race.Do(sc)
 			}
-			if !w.Quick() {
-				for _, sc := range largeScenarios() {
-					race.Do(sc)
+			for _, sc := range largeScenarios() {
+				if w.Quick() && sc.Kind != "diff" {
+					continue // the MB-sized bsdiff inputs are slow under the detector
 				}
+				race.Do(sc)
 			}
 			race.Done()
 		}
